@@ -212,6 +212,22 @@ func syntheticSubjects() []subject {
 		add(f+"[5,)", synthInt(f, 5, nil, 7))
 		add(f+"(,100]", synthInt(f, nil, 100, 7))
 	}
+	// declared steps (the bounds are what the property speaks about; a step may round, it may not leave them)
+	withStep := func(f func() *characteristic.Characteristic, step interface{}) func() *characteristic.Characteristic {
+		return func() *characteristic.Characteristic {
+			c := f()
+			c.StepValue = step
+			return c
+		}
+	}
+	add("uint8[0,100]step15", withStep(synthInt("uint8", 0, 100, 0), 15))
+	add("uint8[0,255]step10", withStep(synthInt("uint8", 0, 255, 0), 10))
+	add("uint8step7", withStep(synthInt("uint8", nil, nil, 0), 7))
+	add("int32[-50,50]step7", withStep(synthInt("int32", -50, 50, 1), 7))
+	add("uint16[1,1000]step300", withStep(synthInt("uint16", 1, 1000, 1), 300))
+	add("uint32[0,4294967295]step1000000000", withStep(synthInt("uint32", 0, 4294967295, 0), 1000000000))
+	add("float[0,1]step0.3", withStep(synthFloat(0.0, 1.0, 0.0), 0.3))
+	add("float[-10,10]step3", withStep(synthFloat(-10.0, 10.0, 0.0), 3.0))
 	add("int32[-50,50]", synthInt("int32", -50, 50, 1))
 	add("uint16[0,65535]", synthInt("uint16", 0, 65535, 1))
 	add("uint32[0,4294967295]", synthInt("uint32", 0, 4294967295, 1))
